@@ -80,6 +80,8 @@ def rows_of(sel, n):
         return sel[1], "int", [sel[1] % n]
     if sel[0] == "list":
         return list(sel[1]), "array", [r % n for r in sel[1]]
+    if sel[0] == "points":  # pointwise (vectorised) selection: (row_k, column_k) pairs
+        return list(sel[1]), "points", [r % n for r in sel[1]]
     raise ValueError(sel)
 
 
@@ -132,6 +134,12 @@ def exercise(case):
             run["open_s"] = round(time.time() - t0, 3)
             run["open_fault_fired"] = bool(tracefs.clear_flaky())
             run["open_events"] = tracefs.take_log() if fsname == "vtrace" else []
+            if tree is not None and case.get("via_copy"):
+                # the tree reaches the code that loads from it through a copy (a worker process, a deep copy kept by the application)
+                import copy as _copy
+                import pickle as _pickle
+
+                tree = {"pickle": lambda t: _pickle.loads(_pickle.dumps(t)), "deepcopy": _copy.deepcopy, "tree.copy": lambda t: t.copy(deep=True)}[case["via_copy"]](tree)
             for i, im in enumerate(b.images):
                 rec = {"group": im["group"], "name": im["name"], "n": im["n"], "p": im["p"], "prefix": im["prefix"],
                        "bps": im["bps"], "loads": []}
@@ -154,6 +162,19 @@ def exercise(case):
                         fl = case["flaky_load"]
                         tracefs.arm_fault(url, im["name"], op="read", nth=fl.get("nth", 1), consume=fl.get("consume", 0.5))
                     try:
+                        if kind == "points":
+                            import xarray as xr
+
+                            cols_ = [c % im["p"] for c in sel[2]]
+                            vals = da.isel(rows=xr.DataArray(key, dims="z"), columns=xr.DataArray(cols_, dims="z")).values
+                            full = np.asarray(vals).reshape(-1)
+                            msg = None
+                            for kk, (r_, c_) in enumerate(zip(rows, cols_)):
+                                m1 = oracle.pixels_match(full[kk:kk + 1].reshape(1, 1), im, rows=[r_], cols=[c_])
+                                msg = msg or m1
+                            ld["outcome"] = "equal" if msg is None else "differ"
+                            ld["msg"] = msg
+                            raise StopIteration
                         vals = da.isel(rows=key).values
                         if kind == "int":
                             ld["ndim"] = int(np.ndim(vals))
@@ -161,6 +182,8 @@ def exercise(case):
                         msg = oracle.pixels_match(vals, im, rows=rows)
                         ld["outcome"] = "equal" if msg is None else "differ"
                         ld["msg"] = msg
+                    except StopIteration:
+                        pass
                     except BaseException as e:  # noqa: B902
                         ld["outcome"] = "error"
                         ld["msg"] = f"{type(e).__name__}: {e}"[:200]
